@@ -40,6 +40,9 @@ def tuples_for(tier):
     return out
 
 
+UNSORTED_NAMES = ['Mz', 'Ma', 'Mk']
+
+
 def shards(tier):
     tl = tuples_for(tier)
     step = 12 if tier == 'quick' else 10
@@ -51,6 +54,11 @@ def check_case(case, res):
     vt = tuple(case['mods'])
     nets = [(tuple(m), w) for m, w in case['nets']]
     doc = nd.build_doc(vt, nets)
+    # the modules are listed in an order that is NOT the alphabetical order of their names (the order of the modules is
+    # part of the design)
+    ren = dict(zip(nd.module_names(3), UNSORTED_NAMES))
+    doc = {'Modules': {ren[k]: v for k, v in doc['Modules'].items()},
+           'Nets': [[ren.get(x, x) if isinstance(x, str) else x for x in e] for e in doc['Nets']]}
     names = [nd.VARIANTS[i][0] for i in vt]
     attrs = dict(variants=names, nnets=len(nets))
     try:
@@ -95,7 +103,7 @@ def check_case(case, res):
         return
     m2 = nd.loaded_model(n2)
     for (field, exp, got) in nd.compare_models(m0, m2, exact=True):
-        which = [v for v, nm in zip(names, nd.module_names(len(names))) if isinstance(exp, tuple) and exp and exp[0] == nm]
+        which = [v for v, nm in zip(names, UNSORTED_NAMES) if isinstance(exp, tuple) and exp and exp[0] == nm]
         res.violation('field:' + field, case, dict(attrs, field=field, variant=(which[0] if which else None)), exp, got)
     text2 = n2.write_yaml()
     if text2 != text:
